@@ -195,9 +195,8 @@ pub(crate) fn translate_block(
                 | capstone::x86_insn::X86_INS_MOVSQ => semantics.movs(&mut instruction_graph),
                 capstone::x86_insn::X86_INS_MOVSX => semantics.movsx(&mut instruction_graph),
                 capstone::x86_insn::X86_INS_MOVSXD => semantics.movsx(&mut instruction_graph),
-                capstone::x86_insn::X86_INS_MOVD | capstone::x86_insn::X86_INS_MOVZX => {
-                    semantics.movzx(&mut instruction_graph)
-                }
+                capstone::x86_insn::X86_INS_MOVD => semantics.movd(&mut instruction_graph),
+                capstone::x86_insn::X86_INS_MOVZX => semantics.movzx(&mut instruction_graph),
                 capstone::x86_insn::X86_INS_MUL => semantics.mul(&mut instruction_graph),
                 capstone::x86_insn::X86_INS_NEG => semantics.neg(&mut instruction_graph),
                 capstone::x86_insn::X86_INS_NOP => semantics.nop(&mut instruction_graph),
